@@ -100,6 +100,19 @@ Theorem C20_no_temp_left_refuted_stop_at_first_failure :
 Proof. exact stop_at_first_failure_leaves_files. Qed.
 Print Assumptions C20_no_temp_left_refuted_stop_at_first_failure.
 
+(* refuted (seeded defect C20-e): assigning the spill file to the buffer only after the dump of the
+   memory part leaves the file created by CreateTemp behind when that dump fails (no Remove failed);
+   as coded (writer assigned first) Reset removes it *)
+Theorem C20_no_temp_left_refuted_late_writer_assignment :
+  exists S c d1 d2,
+    let w1 := snd (bb_write S c d1 (init_world (mkfs [] 0 []))) in
+    fs_files (w_fs (snd (bb_reset cur S (snd (bb_write S c d2 w1))))) = [] /\
+    fst (bb_write_late S c d2 w1) = false /\
+    let w' := snd (bb_reset cur S (snd (bb_write_late S c d2 w1))) in
+    fs_files (w_fs w') <> [] /\ Forall (fun o => oi_kind o <> ORemove) (w_faults w').
+Proof. exact late_writer_assignment_leaves_file. Qed.
+Print Assumptions C20_no_temp_left_refuted_late_writer_assignment.
+
 (* the guard is satisfiable by schedules that do fail things: the two F29 schedules *)
 Theorem C20_no_temp_left_guard_nontrivial :
   no_remove_fault (only_fail OClose TSpill) /\ no_remove_fault (only_fail OWrite TUpload) /\
